@@ -48,7 +48,7 @@ PROPS = {
         "n": {"quick": 4000, "thorough": 200000},
         "exhaustive_note": "thorough tier enumerates every op sequence of length <= 3 over the 19 operations (7240) plus 486 directed sequences reaching all 243 endpoint-state vectors; the quick tier always starts with all sequences of length <= 2 and the directed ones",
         "rule": "cases = op sequences with distinct values per op; the first 867 of every run are the bounded-exhaustive core (all sequences of length <= 2, directed sequences for all 3^5 typestate vectors with URL present / absent), the rest are random sequences of length 0..8 from one SplitMix64 state; distinct = distinct canonical op lines on which the generated model and the implementation agreed; tags = typestate vector x min(length,4)",
-        "trusted_base": ["extract/ (syn 2.x translator, ~1500 lines): Generated/*.lean say what src/*.rs says, for the grammar listed at the top of extract/src/{client,tables,consts,inventory}.rs; anything else is a translation failure",
+        "trusted_base": ["extract/ (syn 2.x translator, ~3000 lines): Generated/*.lean say what src/*.rs says, for the grammar listed at the top of extract/src/{client,tables,consts,inventory}.rs; anything else is a translation failure",
                          "lean/OAuth2Model/Model/ClientSem.lean: meaning of the gate table (method resolution over specialised impl blocks, expect / ok_or / as_ref)",
                          "rustc's typestate resolution (which impl block a call resolves to) is exercised at run time through harness/src/ops/cfg.rs over all 3^5 client types; rejection of calls on unset endpoints is the compile-probe check's part",
                          "what the *_impl request constructors do with id / secret / auth type / redirect is C01/C02/C03's model; here it is observed at run time only"],
